@@ -36,6 +36,7 @@ Still tied by the correspondence runs only: the *messages* the cascade sends (`S
 import Aldrin.Lemmas.Broker.Events
 import Aldrin.Lemmas.Broker.Gauge5
 import Aldrin.Lemmas.Broker.Reg
+import Aldrin.Lemmas.Broker.SvcBus
 
 namespace Aldrin.Broker
 
@@ -208,6 +209,52 @@ theorem destroy_service_unregisters {s s' : St} {id serial c} {conn : Conn} {oid
     simp only [okH, Except.ok.injEq, Prod.mk.injEq, and_true] at hr
     subst hr
     exact (removeService_reg (pc := none) (ps := none) (Reg.of_same h (by reg_eq)) h1).2.1
+
+/-! ### the bus events of the cascade -/
+
+/-- **`remove_service` announces the service.** From any state in which it succeeds: if the cookie is registered, one
+`ServiceDestroyed` with the service's full id is deferred for the bus listeners and exactly that cookie is unregistered;
+if it is not, nothing changes. No `ObjectDestroyed` is deferred. -/
+theorem destroyed_service_is_announced {s s' : St} {c : Cookie} (hr : removeService s c = .ok s') :
+    (∀ c', AL.find? c' s'.b.svcUuids = if c = c' then none else AL.find? c' s.b.svcUuids) ∧
+    s'.w.destroyService = (svcItem s.b.svcUuids c).toList ++ s.w.destroyService ∧
+    s'.w.destroyObject = s.w.destroyObject :=
+  removeService_bus hr
+
+/-- **`remove_object` announces the object and every service it lists** (the object's list names no service twice): one
+`ObjectDestroyed` with the object's id, one `ServiceDestroyed` per listed service that is registered, in the order of the
+list, and all of these cookies are unregistered. -/
+theorem destroyed_object_cascade_is_announced {s s' : St} {c : Cookie} {objUuid : Uuid} {obj : Obj}
+    (hu : AL.find? c s.b.objUuids = some objUuid) (ho : AL.find? objUuid s.b.objs = some obj) (hnd : obj.svcs.Nodup)
+    (hr : removeObject s c = .ok s') :
+    (∀ c', AL.find? c' s'.b.svcUuids = if c' ∈ obj.svcs then none else AL.find? c' s.b.svcUuids) ∧
+    s'.w.destroyService = (obj.svcs.filterMap (svcItem s.b.svcUuids)).reverse ++ s.w.destroyService ∧
+    s'.w.destroyObject = ⟨objUuid, c⟩ :: s.w.destroyObject :=
+  removeObject_bus hu ho hnd hr
+
+/-- in a consistent registry every service an object lists is registered under that object: none of the listed services
+is skipped by the cascade -/
+theorem listed_services_are_announced {b : Broker} (hrc : RegistryConsistent b) {u : Uuid} {o : Obj} (ho : AL.find? u b.objs = some o)
+    {sc : Cookie} (hm : sc ∈ o.svcs) : ∃ sid, svcItem b.svcUuids sc = some sid ∧ sid.cookie = sc := by
+  obtain ⟨svu, info, hs⟩ := hrc.listed_service_is_of_object u o sc ho hm
+  exact ⟨_, by simp only [svcItem, hs]; rfl, rfl⟩
+
+/-- the work loop turns the deferred items into bus events, services before objects: with nothing of higher priority
+deferred, the first `destroy_service` item is emitted as `ServiceDestroyed`; with no such item left, the first
+`destroy_object` item as `ObjectDestroyed` -/
+theorem deferred_destructions_are_emitted {s : St} (h0 : s.w.removeConns = []) (h1 : s.w.unsubscribeEvent = []) (h2 : s.w.unsubscribeAll = [])
+    (h3 : s.w.servicesDestroyed = []) (h4 : s.w.removeCalls = []) (h5 : s.w.createObject = []) (h6 : s.w.createService = []) :
+    (∀ sv rest, s.w.destroyService = sv :: rest →
+      processOne s = some (.ok (emitBusEvent (s.setWDestroyService rest) (.svcDestroyed sv)))) ∧
+    (∀ o rest, s.w.destroyService = [] → s.w.destroyObject = o :: rest →
+      processOne s = some (.ok (emitBusEvent (s.setWDestroyObject rest) (.objDestroyed o)))) := by
+  constructor
+  · intro sv rest hq
+    unfold processOne
+    simp only [h0, h1, h2, h3, h4, h5, h6, hq]
+  · intro o rest hq1 hq
+    unfold processOne
+    simp only [h0, h1, h2, h3, h4, h5, h6, hq1, hq]
 
 /-! non-vacuity of the invariant's clauses: a state with two connections, an object with a service, and a second object -/
 example : (match run {} {} [.newConn 0 20, .newConn 1 20, .msg 0 (.createObject 1 5), .msg 0 (.createService 2 0 6 3),
